@@ -7,10 +7,39 @@ Property oracle on the implementation's own outputs: dense sampling never outsid
 Integrate additive and exactly antisymmetric; difference quotient of the integral = Simpson mean of
 Interpolate (exact for the cubic pieces); everything under prefactors of either sign.
 """
-import math, random
+import math, random, sys
 from fractions import Fraction
 from common import *
-import c09 as T   # table / abscissa generators shared with C09 (same owner)
+import c09 as _T   # table / abscissa generators shared with C09 (same owner)
+
+if hasattr(sys, "set_int_max_str_digits"):
+    sys.set_int_max_str_digits(0)   # exact integrals over hundreds of segments have numerators of >4300 digits
+
+
+class T:
+    """C09's generators, with denormal abscissae (next-representable neighbours of a knot at 0) mapped to 0:
+    products with denormals lose bits before the prefactor rescales them — underflow is not in the model"""
+    fix_increasing = staticmethod(_T.fix_increasing)
+    make_xs = staticmethod(_T.make_xs)
+    make_ys = staticmethod(_T.make_ys)
+    nclass = staticmethod(_T.nclass)
+
+    @staticmethod
+    def nd(x):
+        return 0.0 if 0 < abs(x) < 1e-200 else x
+
+    @staticmethod
+    def point(rng, xs, k, kind=None):
+        return T.nd(_T.point(rng, xs, k, kind))
+
+    @staticmethod
+    def outside_ok(rng, xs):
+        return T.nd(_T.outside_ok(rng, xs))
+
+    @staticmethod
+    def outside_bad(rng, xs):
+        return _T.outside_bad(rng, xs)
+
 
 RULE = ("requests are drawn from VERIF_SEED: tables as in C09 (3..600 knots, four spacing laws, four ordinate laws, "
         "power-of-two unit factors), limit pairs inside one interval / spanning many / at knots / reversed / in the 1% "
@@ -96,7 +125,7 @@ def gen_ext(rng, tier, meta):
     for _ in range(30):
         samples.append(min(max(lo + rng.random() * (hi - lo), lo), hi) if hi >= lo else x1)
     for x in inside[:20]:
-        samples += [v for v in (math.nextafter(x, math.inf), math.nextafter(x, -math.inf)) if x1 <= v <= x2]
+        samples += [v for v in (math.nextafter(x, math.inf), math.nextafter(x, -math.inf)) if x1 <= v <= x2 and T.nd(v) == v]
     nin = len(samples)
     for _ in range(15):   # anywhere in the domain: global bounds
         samples.append(T.point(rng, xs2, rng.randint(0, len(xs2) - 2)))
